@@ -146,3 +146,25 @@ Proof. exact C11N_roundtrip_partial. Qed.
 
 Print Assumptions C11_nested_leaf_roundtrip. Print Assumptions C11_nested_list_roundtrip. Print Assumptions C11_nested_mapping_roundtrip.
 Print Assumptions C11_nested_path_key_refused. Print Assumptions C11_nested_tree_roundtrip_partial.
+
+(* ---- the full tree theorem: ONE tree may mix leaves of every fragment -- plain literals (tree_in_c11e), data-path arguments of
+   callables with several parameters / *args / **kwargs (tree_in_c11p) and nested paths in the argument of a one-parameter callable
+   (leaf_in_c11n).  Proved by simulating the arg1 instance of the parser by the narg instance on arguments of the form NA a
+   (Proofs/C11NestedFullProof.v). *)
+From Valida.Proofs Require Import C11NestedFullProof.
+
+Theorem C11_nested_tree_roundtrip : forall nas t,
+  tree_in_c11n_full nas t ->
+  exists j tm c2,
+    condn_to_json (cmapN nas (cond_of (qnorm t))) = Ok j /\ json_pure j = true /\
+    condn_from_spec j = Ok (tm, c2) /\ condn_eqb c2 (cmapN nas (cond_of (qnorm t))) = true /\
+    condn_to_json c2 = Ok j.
+Proof. exact C11N_roundtrip. Qed.
+
+(* the full fragment contains the earlier ones *)
+Theorem C11_nested_fragment_includes_the_others :
+  (forall nas t, tree_in_c11n nas t -> tree_in_c11n_full nas t) /\
+  (forall sts t, tree_in_c11p sts t = true -> tree_in_c11n_full (embp (pterms sts)) t).
+Proof. split; [ exact C11N_includes_partial | exact C11N_includes_c11p ]. Qed.
+
+Print Assumptions C11_nested_tree_roundtrip. Print Assumptions C11_nested_fragment_includes_the_others.
